@@ -9,7 +9,13 @@ package main
 // disagreement is a broken oracle (exit 2), never a violation.
 
 import (
-	"fmt"
+	"bytes"
+	"compress/bzip2"
+	"encoding/binary"
+	"io"
+	"math/big"
+	"os"
+	"path/filepath"
 	"time"
 
 	"github.com/btcsuite/btcd/blockchain"
@@ -62,7 +68,96 @@ var classOf = map[blockchain.ErrorCode][]string{
 var stageB = map[string]bool{"bip30": true, "missing-input": true, "immature": true, "input-range": true, "value": true,
 	"bip68": true, "sigops": true, "script": true, "cb-value": true}
 
+// bindLiteralVectors: (a) the coinbase-height vectors of the repo's
+// TestCheckSerializedHeight (blockchain/validate_test.go), (b) the first mainnet
+// block file blockchain/testdata/blk_0_to_4.dat.bz2 (a synthetic five-block
+// chain at real mainnet difficulty that the repo's TestHaveBlock /
+// TestNotifications accept with mainnet parameters and coinbase maturity 1; with
+// maturity 100 block 2 spends an immature coinbase, which the reference must
+// also see; with the nonce changed the proof of work must fail).
+func bindLiteralVectors(r *ev.Run) {
+	hv := []struct {
+		script []byte
+		height int32
+		ok     bool
+	}{
+		{[]byte{}, 0, false},
+		{[]byte{0x02}, 0, false},
+		{[]byte{0x02, 0x4a}, 0, false},
+		{[]byte{0x02, 0x4a, 0x52}, 21066, true},
+		{[]byte{0x02, 0x4a, 0x52}, 19026, false},
+		{[]byte{0x03, 0x40, 0x0d, 0x03}, 200000, true},
+		{[]byte{0x03, 0x40, 0x0d, 0x03}, 1074594560, false},
+	}
+	for i, v := range hv {
+		if got := refblock.HeightPrefixOK(v.script, v.height); got != v.ok {
+			r.Broken("TestCheckSerializedHeight vector #%d: reference says %v, shipped vector says %v", i, got, v.ok)
+		}
+	}
+	repo := os.Getenv("VERIF_REPO")
+	if repo == "" {
+		repo = "/repo"
+	}
+	f, err := os.Open(filepath.Join(repo, "blockchain/testdata/blk_0_to_4.dat.bz2"))
+	if err != nil {
+		r.Broken("shipped mainnet blocks: %v", err)
+	}
+	defer f.Close()
+	raw, err := io.ReadAll(bzip2.NewReader(f))
+	if err != nil {
+		r.Broken("shipped mainnet blocks: %v", err)
+	}
+	var blocks []*wire.MsgBlock
+	for len(raw) >= 8 {
+		if binary.LittleEndian.Uint32(raw) != uint32(wire.MainNet) {
+			break
+		}
+		n := int(binary.LittleEndian.Uint32(raw[4:]))
+		if len(raw) < 8+n {
+			r.Broken("shipped mainnet blocks: truncated file")
+		}
+		var b wire.MsgBlock
+		if err := b.Deserialize(bytes.NewReader(raw[8 : 8+n])); err != nil {
+			r.Broken("shipped mainnet blocks: %v", err)
+		}
+		blocks = append(blocks, &b)
+		raw = raw[8+n:]
+	}
+	if len(blocks) != 5 {
+		r.Broken("shipped mainnet blocks: got %d blocks, want 5", len(blocks))
+	}
+	limit := new(big.Int).Sub(new(big.Int).Lsh(big.NewInt(1), 224), big.NewInt(1))
+	mp := &refblock.Params{PowLimit: limit, ExpectedBits: func([]wire.BlockHeader, int64) uint32 { return 0x1d00ffff },
+		BIP34Height: 227931, BIP66Height: 363725, BIP65Height: 388381, CSVHeight: 419328, SegwitHeight: 481824, TaprootHeight: 709632,
+		Maturity: 1, HalvingInterval: 210000, BIP16Time: 1333238400, BIP30Always: true}
+	st := refblock.NewState(blocks[0])
+	now := int64(1_300_000_000)
+	mp100 := *mp
+	mp100.Maturity = 100
+	sawImmature := false
+	for h, b := range blocks[1:] {
+		if v := refblock.Validate(&mp100, st, b, now); len(v) == 1 && v[0] == "immature" {
+			sawImmature = true
+		} else if len(v) != 0 {
+			r.Broken("mainnet-difficulty block %d (shipped testdata), maturity 100: reference says %v", h+1, v)
+		}
+		if v := refblock.Validate(mp, st, b, now); len(v) != 0 {
+			r.Broken("mainnet block %d (shipped testdata) is invalid for the reference: %v", h+1, v)
+		}
+		bad := *b
+		bad.Header.Nonce++
+		if v := refblock.Validate(mp, st, &bad, now); len(v) != 1 || v[0] != "pow-hash" {
+			r.Broken("mainnet block %d with nonce+1: reference says %v, want [pow-hash]", h+1, v)
+		}
+		st.Apply(b)
+	}
+	if !sawImmature {
+		r.Broken("shipped testdata: the repo's tests lower the coinbase maturity to 1 for these blocks, but the reference finds no immature spend at maturity 100")
+	}
+}
+
 func bindFullBlockTests(r *ev.Run) {
+	bindLiteralVectors(r)
 	tests, err := fullblocktests.Generate(false)
 	if err != nil {
 		r.Broken("fullblocktests.Generate: %v", err)
@@ -201,5 +296,4 @@ func bindFullBlockTests(r *ev.Run) {
 		r.Broken("fullblocktests binding covered too little: %d accepted, %d rejected", nAcc, nRej)
 	}
 	r.Set("reference_bound_to_fullblocktests", map[string]int{"accepted_main_chain": nAcc, "accepted_side_chain": nSide, "rejected": nRej})
-	_ = fmt.Sprint
 }
